@@ -296,6 +296,30 @@ def gen_rules(rng):
     return s[:256]
 
 
+def star_family(rng, thorough):
+    """adversarial (rules, category) pairs for the category matcher: many '*' in one rule and categories that match,
+    nearly match (the required last character comes first) or miss - both <= 256 bytes.  A matcher that backtracks
+    exponentially does not come back within the time budget on the near misses."""
+    out = []
+    ns = (20, 50, 100, 200, 255)
+    for k in (8, 16, 24, 40):
+        for n in ns:
+            for cat in (b'a' * n + b'b', b'b' + b'a' * n, b'a' * n):
+                out.append(('*a' * k + '*b=false', cat[:256]))
+    for k in (8, 16, 24, 40):
+        n = rng.choice(ns)
+        out.append(('*' * k + 'b=false', (b'a' * n)[:256]))
+        out.append(('a*' * k + 'b=false', (b'a' * n + b'c')[:256]))
+        out.append(('*.a' * k + '.debug=false', (b'.a' * (n // 2) + b'.x')[:256]))
+        out.append(('x=true;' + '*a' * k + '*b = false ;*=true', (b'b' + b'a' * n)[:256]))
+        out.append(('*ab' * k + '*c=false', (b'ab' * (n // 2) + b'd')[:256]))
+    if not thorough:
+        rng.shuffle(out)
+        keep = [o for o in out if o[1][:1] == b'b' and len(o[1]) > 200][:12]      # the worst near misses always
+        out = keep + [o for o in out if o not in keep][:40]
+    return [Req('C', rules=u16(r), type=rng.randrange(5), cat=list(c)) for r, c in out]
+
+
 # --------------------------------------------------------------------------------- guarded execution
 SAN_ENV = {'ASAN_OPTIONS': 'detect_leaks=0:abort_on_error=0:print_summary=1', 'UBSAN_OPTIONS': 'print_stacktrace=0:halt_on_error=1'}
 
@@ -591,6 +615,21 @@ def run():
             reqs_d.append(Req('R', idx=rng.randrange(12), msg=longtext)); nbig += 1
             reqs_d.append(Req('C', rules=u16(gen_rules(rng)), cat=[rng.randrange(1, 256) for _ in range(256)])); nbig += 1
             reqs_d.append(Req('Y', flag=1, maxw=15, items=[(rng.randrange(5), [rng.randrange(1, 256) for _ in range(size // 4)], longtext)])); nbig += 1
+    # adversarial star rules x near-miss categories: time budget on the plain build (a few also go through the sanitized run)
+    reqs_star = star_family(rng, thorough)
+    res_star = run_parallel(impl, [r.line() for r in reqs_star], 4)
+    star_max_us = 0
+    for rq, r in zip(reqs_star, res_star):
+        if r[0] == 'ok':
+            star_max_us = max(star_max_us, r[2])
+            if r[2] > BUDGET_S * 1e6:
+                findings.append((rq, impl, 'slow', '%d us' % r[2]))
+        elif r[0] in ('crash', 'timeout'):
+            findings.append((rq, impl, r[0], r[3]))
+        else:
+            skipped += 1
+    if not any(f[0] in reqs_star for f in findings if f[0] is not None):
+        reqs_d += reqs_star[:6]
     cfile = os.path.join(vlib.VERIF, 'corpus', 'C14', 'requests.txt')
     corpus_lines = [l.strip() for l in open(cfile) if l.strip() and not l.startswith('#')] if os.path.exists(cfile) else []
     lines_d = [r.line() for r in reqs_d] + corpus_lines
@@ -700,7 +739,7 @@ def run():
            'objc_prefix': sum(s[:1] in (b'+', b'-') for s in sigs), 'byte_ge_0x80': sum(any(c >= 128 for c in s) for s in sigs),
            'qualifier_tail': sum(any(s.endswith(q) for q in (b' const', b' volatile', b' noexcept', b' override', b' final')) for s in sigs),
            'empty': sum(1 for s in sigs if not s)}
-    evals = len(sigs) + len(reqs_b) + len(reqs_c) + len(lines_d) + len(probes) + 1
+    evals = len(sigs) + len(reqs_b) + len(reqs_c) + len(lines_d) + len(reqs_star) + len(probes) + 1
     chk.cov.update({
         'evaluations': evals,
         'distinct_nontrivial': len({s for s, r in zip(sigs, res_a) if r[0] == 'ok' and r[1] != h16(list(s))}) + nontrivial_b,
@@ -708,7 +747,8 @@ def run():
                 'B: grammar-directed patterns (all tokens, conditionals, optional attributes, every fill/align/width/! form, malformed '
                 'specs, unterminated placeholders) x messages/attributes/paths, real vs checked pattern model and resource bound; '
                 'C: PrettyFormatter message sequences, real vs checked model; D: ASan+UBSan build over P/J/S/C/R/Y requests with '
-                'arbitrary bytes and every string position at sizes up to 64 KiB, per-input time budget; probes: width near INT_MAX '
+                'arbitrary bytes and every string position at sizes up to 64 KiB, per-input time budget; E: category rules with 8..40 stars x '
+                'matching / near-miss / missing categories <= 256 bytes under the 2 s budget; probes: width near INT_MAX '
                 'under ulimit -v, removal counts near INT_MAX under UBSan. non-trivial = output differs from the raw input',
         'func_cases': len(sigs), 'func_model_faults': len(fault_a), 'func_disagreements': len(dis_a),
         'func_length_histogram': {str(b): sum(1 for s in sigs if lo <= len(s) < b) for lo, b in ((0, 16), (16, 64), (64, 256), (256, 1024), (1024, 4097))},
@@ -719,6 +759,7 @@ def run():
         'sanitizer_cases': len(lines_d), 'sanitizer_kinds': kinds_d, 'sanitizer_long_inputs': nbig,
         'sanitizer_max_input_size': max(r.size() for r in reqs_d), 'sanitizer_reports': sum(1 for f in findings if f[1] == san),
         'time_budget_s': BUDGET_S, 'time_budget_sanitized_s': SAN_BUDGET_S, 'long_inputs_rerun_on_plain_build': len(long_reqs), 'max_elapsed_us_plain': max_us, 'max_elapsed_us_sanitized': max_us_san, 'over_budget': slow, 'requests_not_run_after_repeated_crashes': skipped,
+        'category_star_family_cases': len(reqs_star), 'category_star_family_max_elapsed_us': star_max_us,
         'probes': probes, 'width_cap': WIDTH_CAP})
     chk.samples = [{'signature': show8(sigs[i][:80]), 'impl': show16(un16(res_a[i][1] or '-')[:80]), 'model': mod_a[i][:60]} for i in (0, len(sigs) // 3)
                    if res_a[i][0] == 'ok'] + \
